@@ -64,6 +64,11 @@ struct vsbx_events
   // arguments of the most recent membership query (what RLBox range-checked)
   uintptr_t last_same_p1 = 0, last_same_p2 = 0;
   uint64_t same_queries = 0;
+  // grant/deny hooks (configs with grant = true): what RLBox handed to the backend last
+  uint64_t grant_requests = 0, deny_requests = 0;
+  uintptr_t last_grant_src = 0, last_deny_src = 0;
+  uint64_t last_grant_num = 0, last_deny_num = 0;
+  size_t last_grant_elsize = 0, last_deny_elsize = 0;
   void reset() { *this = vsbx_events{}; }
 };
 inline thread_local vsbx_events vsbx_ev;
@@ -83,6 +88,15 @@ struct vsbx_ilp32f : vsbx_ilp32
   static constexpr bool finder = true;
   static constexpr const char* name = "ILP32/FINDER";
 };
+// ILP32 whose backend offers the optional grant/deny-access hooks (can_grant_deny_access).  The hooks record what they
+// are handed and accept or decline by vsbx_grant_policy (declining makes RLBox fall back to copying), so both the hook
+// path and the copy path behind it are driven.
+struct vsbx_ilp32g : vsbx_ilp32
+{
+  static constexpr bool grant = true;
+  static constexpr const char* name = "ILP32/MASK+grant";
+};
+struct vsbx_grant_policy { static inline thread_local bool accept_deny = false; static inline thread_local bool accept_grant = false; };
 struct vsbx_narrow
 {
   using S = int8_t; using I = int16_t; using L = int32_t; using LL = int32_t;
@@ -138,6 +152,10 @@ template<typename Cfg>
 class rlbox_vsbx_sandbox;
 
 namespace vsbx_detail {
+template<typename C, typename = void> struct has_grant : std::false_type {};
+template<typename C> struct has_grant<C, std::enable_if_t<C::grant>> : std::true_type {};
+struct grant_tag { using can_grant_deny_access = void; };
+struct no_grant_tag {};
   // 2-argument and 3-argument forms of impl_is_in_same_sandbox.  RLBox picks
   // by counting the parameters of the (non-overloaded) static member.
   template<typename Cfg>
@@ -174,6 +192,7 @@ class rlbox_vsbx_sandbox
   : public std::conditional_t<Cfg::finder,
                               vsbx_detail::same3<Cfg>,
                               vsbx_detail::same2<Cfg>>
+  , public std::conditional_t<vsbx_detail::has_grant<Cfg>::value, vsbx_detail::grant_tag, vsbx_detail::no_grant_tag>
 {
 public:
   using T_LongLongType = typename Cfg::LL;
@@ -388,6 +407,29 @@ protected:
   }
 
   // ---- symbols
+  // optional grant/deny hooks (reachable only with a config that has grant = true)
+  template<typename T>
+  inline T* impl_grant_access(T* src, size_t num, bool& success)
+  {
+    vsbx_ev.grant_requests++;
+    vsbx_ev.last_grant_src = reinterpret_cast<uintptr_t>(src);
+    vsbx_ev.last_grant_num = num;
+    vsbx_ev.last_grant_elsize = sizeof(T);
+    // declines by default (RLBox then copies); with accept_grant it pretends to have mapped the buffer at base+64
+    success = vsbx_grant_policy::accept_grant;
+    return success ? reinterpret_cast<T*>(base + 64) : nullptr;
+  }
+  template<typename T>
+  inline T* impl_deny_access(T* src, size_t num, bool& success)
+  {
+    vsbx_ev.deny_requests++;
+    vsbx_ev.last_deny_src = reinterpret_cast<uintptr_t>(src);
+    vsbx_ev.last_deny_num = num;
+    vsbx_ev.last_deny_elsize = sizeof(T);
+    success = vsbx_grant_policy::accept_deny;
+    return success ? src : nullptr;
+  }
+
   void* impl_lookup_symbol(const char* name)
   {
     auto it = lib->exports.find(name);
